@@ -383,6 +383,10 @@ PickCase ==
           \/ \E i \in 1..Len(T), r \in Universe : cs' = Case(c, "one", T[i].name, T, [B EXCEPT ![i] = r])
           \/ \E pr \in PairNames(c), r1 \in IntReps, r2 \in IntReps :
                 cs' = Case(c, "pair", pr[1] \o "," \o pr[2], T, [B EXCEPT ![Idx(T, pr[1])] = r1, ![Idx(T, pr[2])] = r2])
+          \/ /\ KindOf(chunk) = "estimator"                    \* inconsistent combination: a "precomputed" kernel / metric is
+             /\ \E i \in 1..Len(T), r \in Universe :            \* legal, but only together with the matrix given to fit
+                   /\ r.type = "str" /\ r.s = "precomputed" /\ JudgeParam(T[i], r) = "accept"
+                   /\ cs' = [Case(c, "noaffinity", T[i].name, T, [B EXCEPT ![i] = r]) EXCEPT !.expect = "reject"]
           \/ /\ KindOf(chunk) = "estimator"
              /\ \/ \E m \in Malformed(c) : cs' = [Case(c, "data", m, T, B) EXCEPT !.expect = "reject"]
                 \/ \E m \in Methods(c) : cs' = [Case(c, "unfitted", m, T, B) EXCEPT !.expect = "raise"]
